@@ -173,6 +173,7 @@ def run(ctx, chk):
     chk.rule("C18.R4", "frame: only AL (and the 0Ah buffer) changes", floor=20)
     chk.rule("C18.R5", "services address memory through the documented registers", floor=3)
     chk.rule("C18.R6", "interrupt numbers agree between assembler, interpreter and driver", floor=2)
+    chk.rule("C18.R9", "no length or count is silently truncated: every narrowing cast in a service is lossless or guarded by a test", floor=3)
     chk.rule("C18.R8", "whenever the read succeeds (end of input included) AH=1 defines AL and AH=0Ah defines the count byte", floor=2)
     chk.rule("C18.R7", "machine bytes are written as the characters with their codes (`byte as char`), never decoded or printed as numbers", floor=2)
     chk.assumptions += ["read_line appends at most one line to the buffer and returns its byte count",
@@ -244,6 +245,22 @@ def run(ctx, chk):
                     chk.violation("C18.R1", unit, f"{akind}({ops})", f"{akind} can fail in {n} with AH={ah:02X}h: {e.witness}", f"{where}:{line}", e.witness)
                 else:
                     chk.undecided_("C18.R1", f"{unit}:{akind}@{line}", f"operands {ops}: intervals cannot exclude the failing side")
+            # R9 lengths and counts are never silently truncated
+            nseen = {}
+            for e in I.events:
+                if e.kind == "narrow":
+                    nseen.setdefault((e.line, e.ty), []).append(e)
+            if not nseen:
+                chk.ok("C18.R9", unit, "every integer narrowing in the service is lossless")
+            for (line, ty), evs in sorted(nseen.items()):
+                bare = [ev for ev in evs if not ev.open_deps and getattr(ev.val, "exact", False)]
+                if bare:
+                    v = bare[0].val
+                    chk.violation("C18.R9", unit, f"unguarded-lossy-{ty}-cast",
+                                  f"{n} AH={ah:02X}h narrows a value with range [{v.lo},{v.hi}] to {ty} and no test guards the cast: a length or count above the {ty} range "
+                                  f"(a line of 256 bytes or more) silently becomes its low byte", f"{where}:{line}", f"value range [{v.lo},{v.hi}] -> {ty}")
+                else:
+                    chk.undecided_("C18.R9", f"{unit}@{line}", f"a {ty} narrowing is guarded by a test; its range is not provable by intervals")
             if st.dead:
                 continue
             vm = st.frames[0]["vm"]
